@@ -91,8 +91,10 @@ read / close family (`Steps`: `HTTPConnection.close`, closing a reader, log / so
 update of a response that keeps `_connection`), and the queue/lease counting core of the one-attempt
 summary lemma: a checked-out connection (`InvL s (c :: L)`) that is put back (`_put_conn(conn)`, clean
 exit) or discarded (`conn.close(); _put_conn(None)`, unclean exit) restores the invariant with the
-lease gone — including the `Full` / closed-pool / `FullPoolError` branches.  Missing for the full
-theorem: `getConn` turns `Inv s` into `InvL s' [c]`; attaching the connection to the response
+lease gone — including the `Full` / closed-pool / `FullPoolError` branches; and `_get_conn` turns `Inv s`
+into `InvL s' [c]` (`C01_attempt_clean_exit` / `C01_attempt_unclean_exit` string the three together for
+any sequence of primitive steps in between).  Missing for the full theorem: exhibiting `makeRequest` and
+the read family as `Steps`; attaching the connection to the response
 (`InvL s (c :: L)` → `InvL s' L`, `filterMap_modify_perm` is the list lemma for it); `releaseConn`
 (held → queue); and the induction over the attempt script in `request` that strings them together
 (each composite of the read family has to be exhibited as `Steps`).  The correspondence run
@@ -116,6 +118,29 @@ theorem C01_putback_restores_inv {s : State} {c : Nat} (h : InvL s [c]) : Inv (p
 `None` placeholder takes its slot -/
 theorem C01_discard_restores_inv {s : State} {c : Nat} (h : InvL s [c]) : Inv (discard s (some c)).1 :=
   discard_lease_inv h
+
+/-- `_get_conn()` returning connection `c` turns `Inv` into the invariant with `c` leased -/
+theorem C01_checkout_inv {s s' : State} {c : Nat} (h : Inv s) (hg : getConn s = (s', .ok c)) : InvL s' [c] :=
+  getConn_inv h hg
+
+/-- … and when it raises (`EmptyPoolError`, `ClosedPoolError`) nothing was taken -/
+theorem C01_checkout_error_takes_nothing {s s' : State} {e : Exc} (hg : getConn s = (s', .error e)) : s' = s :=
+  getConn_error_state hg
+
+/-- one-attempt summary, clean exit with `release_conn`: checkout, then ANY sequence of primitive steps
+(connecting `c`, sending, reading, closing sockets and readers, creating the response), then
+`_put_conn(c)` — the invariant holds again -/
+theorem C01_attempt_clean_exit {s s1 s2 : State} {c : Nat} (h : Inv s) (hg : getConn s = (s1, .ok c))
+    (st : Steps [c] s1 s2) : Inv (putConn s2 (some c)).1 :=
+  putConn_lease_inv (steps_inv (by simp) st (getConn_inv h hg))
+
+/-- one-attempt summary, unclean exit (any exception or interrupt at any I/O step): the `finally`
+clause closes `c` and puts `None` back — the invariant holds again, no slot is lost -/
+theorem C01_attempt_unclean_exit {s s1 s2 : State} {c : Nat} (h : Inv s) (hg : getConn s = (s1, .ok c))
+    (st : Steps [c] s1 s2) : Inv (discard s2 (some c)).1 :=
+  discard_lease_inv (steps_inv (by simp) st (getConn_inv h hg))
+
+example : (getConn (init 1 true)).2 = .ok 0 := rfl
 
 example : InvL { (init 1 true) with queue := [], conns := [{}] } [0] := by
   refine ⟨by decide, ?_, ?_, ?_, ?_, ?_, ?_, ?_⟩ <;> simp [init, owned, queued, held]
